@@ -31,6 +31,8 @@ MAXTASKS = 30
 
 MODULE_M1 = '''
 v = 'm1'
+_private = ['m1-private']
+__dunder_like = 'm1-dunder'
 hits = []
 def get_v():
     return v
@@ -56,11 +58,12 @@ class K:
 MODULE_M2_INIT = '''
 FROM_SIB
 from . import other
+from . import sub
 v = 'm2'
 def set_other(x):
     other.set_v(x)
 def other_v():
-    return (other.get(), sib.via_other(), sib.oth_get())
+    return (other.get(), sib.via_other(), sib.oth_get(), sub.sub_other())
 def get_v():
     return v
 def set_v(x):
@@ -93,6 +96,14 @@ def set_v(x):
     v = x
 '''
 
+MODULE_M2_SUB = '''
+from .. import other as up_other
+from ..other import get as up_get
+from ..sib import via_other as up_via
+def sub_other():
+    return ('sub', up_other.get(), up_get(), up_via())
+'''
+
 MODULE_M2_SIB = '''
 from . import other
 from .other import get as oth_get
@@ -113,7 +124,7 @@ PLACEMENTS = {
     "apppkg_apppkg": ("apps/a/__init__.py", "apps.a", "apps/b/__init__.py", "apps.b"),
     "script_subdir": ("scripts/a.py", "scripts.a", "scripts/sub/b.py", "scripts.sub.b"),
 }
-FORMS = ["import", "import_as", "from_names_after", "from_names_before", "from_star_before", "pkg", "pkg_from"]
+FORMS = ["import", "import_as", "from_names_after", "from_names_before", "from_star_before", "from_star_after", "pkg", "pkg_from"]
 ENTRIES = ["load", "service", "startup", "task"]
 
 
@@ -130,6 +141,7 @@ def boom():
     raise ValueError('boom-' + v)
 def own_v():
     return ('own', v)
+_private = ['{me}-private']
 class K:
     tag = 'K-{me}'
     def who(self):
@@ -147,6 +159,9 @@ class K:
         head, M = "from m1 import get_v, set_v, boom, K, apply, maker, ctxname\n" + own, ""
     elif form == "from_star_before":
         head, M = "from m1 import *\n" + own, ""
+    elif form == "from_star_after":
+        # the star import replaces the file's public names, but never touches names that start with an underscore
+        head, M = own + "from m1 import *\n", ""
     elif form == "pkg":
         head, M = "import m2\n" + own, "m2."
     else:
@@ -180,7 +195,8 @@ def chain():
         log.append(('peek', only_in_{other}))
     except NameError as e:
         log.append(('isolated', 'NameError'))
-    set_v('{me}-final') if {str(form not in ('from_names_after',))} else None
+    set_v('{me}-final') if {str(form not in ('from_names_after', 'from_star_after'))} else None
+    log.append(('private', _private, '_private' in globals(), [n for n in sorted(globals()) if 'dunder_like' in n]))
     log.append(('{me}.end', v))
 only_in_{me} = 'secret-{me}'
 '''
@@ -202,7 +218,8 @@ def module_files(sibform):
         init = MODULE_M2_INIT.replace("FROM_SIB", "from . import sib").replace("SIBCALL", "sib.h()")
     else:
         init = MODULE_M2_INIT.replace("FROM_SIB", "from .sib import h\nfrom . import sib").replace("SIBCALL", "h()")
-    return {"m1.py": MODULE_M1, "m2/__init__.py": init, "m2/sib.py": MODULE_M2_SIB, "m2/other.py": MODULE_M2_OTHER}
+    return {"m1.py": MODULE_M1, "m2/__init__.py": init, "m2/sib.py": MODULE_M2_SIB, "m2/other.py": MODULE_M2_OTHER,
+            "m2/sub/__init__.py": MODULE_M2_SUB}
 
 
 def canon(v):
@@ -226,7 +243,7 @@ def run_reference(fa, ea, fb, eb, sibform, place):
 
     pl = PLACEMENTS[place]
     builtins.pyscript = _PyscriptShim({"a": pl[1], "b": pl[3], "m1": "modules.m1", "m2": "modules.m2", "m2.sib": "modules.m2.sib",
-                                      "m2.other": "modules.m2.other"})
+                                      "m2.other": "modules.m2.other", "m2.sub": "modules.m2.sub"})
     try:
         return _run_reference(fa, ea, fb, eb, sibform)
     finally:
@@ -243,7 +260,7 @@ def _run_reference(fa, ea, fb, eb, sibform):
             fp = os.path.join(base, rel)
             os.makedirs(os.path.dirname(fp), exist_ok=True)
             open(fp, "w").write(src)
-        for n in ("a", "b", "m1", "m2", "m2.sib", "m2.other"):
+        for n in ("a", "b", "m1", "m2", "m2.sib", "m2.other", "m2.sub"):
             sys.modules.pop(n, None)
         sys.path.insert(0, base)
         try:
@@ -274,7 +291,7 @@ def _run_reference(fa, ea, fb, eb, sibform):
             return out
         finally:
             sys.path.remove(base)
-            for n in ("a", "b", "m1", "m2", "m2.sib", "m2.other"):
+            for n in ("a", "b", "m1", "m2", "m2.sib", "m2.other", "m2.sub"):
                 sys.modules.pop(n, None)
     finally:
         shutil.rmtree(base, ignore_errors=True)
@@ -306,7 +323,7 @@ def run_pyscript(fa, ea, fb, eb, sibform, place, legacy):
         from custom_components.pyscript.global_ctx import GlobalContextMgr
 
         extra_ctx = sorted(n for n in GlobalContextMgr.contexts if n.startswith("modules.") and n not in (
-            "modules.m1", "modules.m2", "modules.m2.sib", "modules.m2.other"))
+            "modules.m1", "modules.m2", "modules.m2.sib", "modules.m2.other", "modules.m2.sub"))
         if extra_ctx:
             out["unexpected_module_contexts"] = extra_ctx
         for mn, cn in (("m1", "modules.m1"), ("m2", "modules.m2"), ("m2.sib", "modules.m2.sib"), ("m2.other", "modules.m2.other")):
